@@ -1,5 +1,6 @@
 import RQ.Lemmas.ParseTotal
 import RQ.Lemmas.Place
+import RQ.Lemmas.StripBound
 /-!
 # C11 — the patch parser is total: any bytes give a patch or an error, never a crash
 
@@ -16,6 +17,12 @@ least one byte per stored line — `C11_alloc`.  (The overflow sites fixed in th
 come from numbers *written in the patch* is the offset search of `try_apply_hunk`; `C11_scan_bounded`
 shows that it tries at most `len + 1` positions whatever those numbers are (before two repairs it tried
 up to 2^63 positions behind the end, respectively before the start, of the file).
+(v) the other loop whose bound is a number the user writes is the strip loop of `strip_path`
+(`for _ in 0..strip`, the count comes from `-pN` in the series file): `C11_strip_bounded` shows that a count
+beyond the length of the name gives what the count `length + 1` gives — each `next()` consumes a byte, so
+the loop (which now leaves at the first `None`; before that repair `-p18446744073709551615` spun 2^64
+times) needs at most `length + 1` iterations — and `C11_strip_huge_refused` that a count reaching the
+number of components leaves the empty name, which the driver refuses (`safeKey = none`).
 -/
 namespace RQ.Parse
 open RQ
@@ -52,7 +59,24 @@ every stated line number and every offset inherited from the previous hunk (both
 theorem C11_scan_bounded (t : Int) (len n : Nat) : (RQ.cands t len n).length ≤ len + 1 :=
   RQ.cands_length_le t len n
 
+/-- the strip loop is bounded by the name, not by the count: every count beyond the length of the name
+gives the result of the count `raw.length + 1` -/
+theorem C11_strip_bounded (n : Nat) (raw : Bytes) (h : raw.length < n) :
+    stripPath n raw = stripPath (raw.length + 1) raw :=
+  RQ.stripPath_bound n raw h
+
+/-- a strip count that reaches the number of components of the name (in particular any count from the
+length of the name on) leaves no component, and the resulting empty name is refused by the driver -/
+theorem C11_strip_huge_refused (n : Nat) (raw : Bytes) (h : (components raw).length ≤ n) :
+    components (stripPath n raw) = [] ∧ safeKey (stripPath n raw) = none :=
+  RQ.stripPath_huge n raw h
+
 /-! ### non-vacuity -/
+-- "a/b" with -p18446744073709551615: the empty name, as with -p4; "a/b" has 2 components
+example : stripPath 18446744073709551615 [97, 47, 98] = stripPath 4 [97, 47, 98] :=
+  C11_strip_bounded _ _ (by decide)
+example : stripPath 4 [97, 47, 98] = [] ∧ stripPath 1 [97, 47, 98] = [98] := by decide
+example : (components [97, 47, 98]).length = 2 := by decide
 example : RQ.cands (-(2^63) + 4) 1 1 = [0] := by decide
 example : RQ.cands (2^63 - 1) 3 1 = [2, 1, 0] := by decide
 example : (match parsePatch [45,45,45,32,97,10, 43,43,43,32,98,10, 64,64,32,45,49,32,43,49,32,64,64,10, 45,120,10, 43,121,10] 0 true with
@@ -65,5 +89,7 @@ example : (match parsePatch [45,45,45,32,97,10, 43,43,43,32,98,10, 64,64,32,45,4
 #print axioms C11_wf
 #print axioms C11_alloc
 #print axioms C11_scan_bounded
+#print axioms C11_strip_bounded
+#print axioms C11_strip_huge_refused
 
 end RQ.Parse
